@@ -1,4 +1,5 @@
 import GoSQLXModel.Model.ErrChain
+import GoSQLXModel.Proofs.CancelPrompt
 import GoSQLXModel.Gen.ErrorSites
 import GoSQLXModel.Gen.Structure
 /-!
@@ -18,6 +19,11 @@ Static half (this file):
 * `cancel_reported` — the model of the return path: whatever the inner parsers did to the error
   (flatten or keep), the value ParseContext returns under a done context matches the context error,
   and so does the value after the gosqlx `%w` wrappers.
+* `cancellation_seen_at_first_poll`, `result_means_context_unseen` (Proofs/CancelPrompt.lean) — over the model of
+  the ParseContext loop (any token stream, statement oracle, polls per statement, firing pattern): a `cancelled j`
+  outcome means poll `j` saw the context done and no earlier poll of the call did — nothing is polled or parsed after
+  the first observation — and a returned result is exactly `Parse`'s: a context that fires between or after the
+  call's polls is invisible.
 The dynamic half (every poll index k, both causes, reuse afterwards, poll counts) runs on the real code.
 -/
 namespace GoSQLXModel.Props.C11
@@ -42,6 +48,27 @@ theorem gen_entry_polls_first :
     (["sql/tokenizer:Tokenizer.TokenizeContext", "sql/parser:Parser.ParseContext", "gosqlx:ParseWithContext"].all
       fun f => Gen.Structure.ctxEntries.any fun e => e.1 == f && e.2 == "poll-first") = true ∧
     (Gen.Structure.ctxEntries.filter fun e => !(e.2 == "poll-first" || e.2 == "delegates")) = [] := by decide +kernel
+
+theorem cancellation_seen_at_first_poll (I : Loops.Input) (strict : Bool) (fires : Nat → Bool) (polls : Nat → Nat)
+    (f k pos : Nat) (acc : List Nat) (j : Nat)
+    (h : Loops.parseContextLoop I strict fires polls f k pos acc = some (.cancelled j)) :
+    k ≤ j ∧ fires j = true ∧ ∀ i, k ≤ i → i < j → fires i = false :=
+  Loops.cancelled_at_first_firing_poll I strict fires polls f k pos acc j h
+
+theorem result_means_context_unseen (I : Loops.Input) (strict : Bool) (fires : Nat → Bool) (polls : Nat → Nat)
+    (f k pos : Nat) (acc : List Nat) (r : Loops.Res)
+    (h : Loops.parseContextLoop I strict fires polls f k pos acc = some (.done r)) :
+    Loops.parseLoop I strict f pos acc = some r := Loops.done_means_parse I strict fires polls f k pos acc r h
+
+/-- non-vacuity: three statements of two inner polls each; a context done from poll 4 on is reported at poll 4
+    (inside the second statement), one done from poll 9 on is never seen (the call makes polls 0 … 8) -/
+def threeStmts : Loops.Input :=
+  { kind := fun i => if i % 2 = 1 ∧ i < 6 then .semi else if i ≥ 6 then .eof else .start, n := 7,
+    stmt := fun p => { ok := true, stop := p + 1, code := 0 } }
+example : Loops.parseContextLoop threeStmts false (fun k => decide (k ≥ 4)) (fun _ => 2) 9 0 0 [] = some (.cancelled 4) := by
+  decide
+example : Loops.parseContextLoop threeStmts false (fun k => decide (k ≥ 9)) (fun _ => 2) 9 0 0 []
+    = some (.done (.ok [0, 2, 4])) := by decide
 
 /-- what an inner parser frame may do to an error on its way up -/
 inductive Frame where
